@@ -289,6 +289,7 @@ func (d *Document) getOrCreateNumbering(config *ListConfig) string {
 	} else {
 		// 创建新的抽象编号
 		abstractNumID := strconv.Itoa(manager.nextAbstractNumID)
+		verifPoint("numbering.abs-id-read")
 		manager.nextAbstractNumID++
 
 		abstractNum = d.createAbstractNum(abstractNumID, config)
@@ -297,6 +298,7 @@ func (d *Document) getOrCreateNumbering(config *ListConfig) string {
 
 	// 创建编号实例
 	numID := strconv.Itoa(manager.nextNumID)
+	verifPoint("numbering.num-id-read")
 	manager.nextNumID++
 
 	numInstance := &NumInstance{
@@ -305,9 +307,11 @@ func (d *Document) getOrCreateNumbering(config *ListConfig) string {
 			Val: abstractNum.AbstractNumID,
 		},
 	}
+	verifPoint("numbering.before-store")
 	manager.numInstances[numID] = numInstance
 
 	// 更新编号定义文件
+	verifPoint("numbering.before-regen")
 	d.updateNumberingFile()
 
 	return numID
